@@ -93,6 +93,7 @@ type Engine struct {
 	gob             *gobState
 	http            *httpModel
 	unknownBranches int
+	onceDone        map[*Cell]bool
 	nextIsDeferCall bool
 	janitors        []Value // receivers of the janitor goroutines the constructors wanted to start
 	hashConcLens    map[int]bool
@@ -175,6 +176,7 @@ func (e *Engine) resetPath() {
 	e.gob = nil
 	e.http = nil
 	e.janitors = nil
+	e.onceDone = nil
 	e.hashConcLens = map[int]bool{}
 	e.hashSymLens = map[int]bool{}
 	e.hashAlwaysUF = false
